@@ -3,6 +3,7 @@ model/Dispatch.v on random scenarios + PEP 3333 monitor over hostile environs
 and handler programs."""
 import io
 import re
+import threading
 import time
 
 import implrun  # noqa: F401
@@ -90,7 +91,29 @@ def run(ctx):
             {"Cookie": "SESSID=" + "A" * 5000, "Accept": ",;q=,,"}]
     programs = [("ret", v) for v in dc.VAL_POOL[::3]] + \
         [("abort", c) for c in (0, 200, 401, 404, 999)] + \
-        [("throw", 1), ("conn",), ("exit",)]
+        [("abortkw", c) for c in (400, 404, 409, 410, 500, 999)] + \
+        [("throw", 1), ("throw", 5), ("throw", 6), ("conn",), ("exit",)]
+
+    def perform(prog):
+        if prog[0] == "abortkw":    # HTTPException with keyword arguments
+            from poorwsgi.response import HTTPException
+            raise HTTPException(prog[1], **rng.choice(
+                [{"error": "e"}, {"foo": 1}, {"realm": "R", "stale": True}]))
+        return dc.act(prog)
+
+    class RawInput:
+        """a server's input stream: not a BytesIO, may end early"""
+        def __init__(self, data):
+            self._b = io.BytesIO(data)
+            self.reads = 0
+
+        def read(self, size=-1):
+            self.reads += 1
+            return self._b.read(size)
+
+        def readline(self, size=-1):
+            self.reads += 1
+            return self._b.readline(size)
     total = 400 if ctx.quick else 6000
     for i in range(total):
         prog = rng.choice(programs)
@@ -102,8 +125,9 @@ def run(ctx):
             app.data_size = rng.choice([0, 2, 100])
         if rng.random() < 0.2:
             app.cached_size = rng.choice([0, 1, 7])
-        app.set_route("/x", lambda req, _p=prog: dc.act(_p), 511)
-        app.set_route("/d/<n:int>", lambda req, n, _p=prog: dc.act(_p), 511)
+        app.set_route("/x", lambda req, _p=prog: perform(_p), 511)
+        app.set_route("/d/<n:int>", lambda req, n, _p=prog: perform(_p), 511)
+        app.read_timeout = 0.3
         if rng.random() < 0.3:
             app.add_before_response(lambda req: None)
         if rng.random() < 0.3:
@@ -125,9 +149,23 @@ def run(ctx):
                   "config": cfg,
                   "headers": {k: v[:40] for k, v in env.items()
                               if k.startswith("HTTP_")}}
+        if rng.random() < 0.5:
+            # unbuffered delivery through a raw stream, possibly shorter
+            # than the declared length
+            cut = rng.choice([0, 0, 1, 7, 30])
+            env["wsgi.input"] = RawInput(body[:max(0, len(body) - cut)])
+            detail["raw_input_short_by"] = cut
         t0 = time.time()
-        ans = call(app, env)
+        box = []
+        worker = threading.Thread(target=lambda: box.append(call(app, env)),
+                                  daemon=True)
+        worker.start()
+        worker.join(8)
         wall = time.time() - t0
+        if not box:
+            ctx.violation("never-returns", dict(detail, waited=wall))
+            continue
+        ans = box[0]
         ctx.case(("env", i, repr(detail)), True, detail if i < 3 else None)
         ctx.count("environ-program")
         pep3333(ctx, ans, True, detail, wall=wall)
